@@ -723,6 +723,36 @@ impl<'a> Lock<'a> {
             let c = self.sim.random_choice(r, p);
             self.step(c);
         }
+        // The adversarial budget is used up but the system is still busy (a starved worker with a
+        // one-instruction quantum can need a very long schedule): finish with fair rounds, so that
+        // "no result" is only ever reported for a system that is really quiescent.
+        let mut idle_streak = 0;
+        for _ in 0..400_000usize {
+            if finished_at.is_none() && done(&mut self.sim) {
+                finished_at = Some(self.steps);
+            }
+            if self.sim.quiescent() {
+                if idle_streak == 0 {
+                    self.check_quiescent();
+                }
+                idle_streak += 1;
+                if idle_streak > 2 * (n + 1) {
+                    break;
+                }
+            } else {
+                idle_streak = 0;
+                if self.sim.idle()
+                    && let Some(t) = self.sim.next_timeout()
+                {
+                    let ms = t.saturating_sub(self.sim.time_ms).max(1);
+                    self.step(Choice::Tick { ms });
+                }
+            }
+            self.step(Choice::Env { visible: vec![usize::MAX; n] });
+            for i in 0..n {
+                self.step(Choice::Worker { i, visible: usize::MAX });
+            }
+        }
         finished_at.is_some()
     }
 
